@@ -229,28 +229,65 @@ func init() {
 		endPast := L("(p1.EndsAt.AsTime <t p2)", true)
 		startPast := L("(p1.StartsAt.AsTime <t p2)", true)
 		F, T := [][]string{Vals("false")}, [][]string{Vals("true")}
-		o.Table(fn, "canUpdate", []Row{
-			{Name: "different matchers", Assume: A(same.Neg()), Ret: F},
-			{Name: "active, start moved", Assume: A(same, st("active"), sameStart.Neg()), Ret: F},
-			{Name: "active, end before now", Assume: A(same, st("active"), sameStart, endPast), Ret: F},
-			{Name: "active, ok", Assume: A(same, st("active"), sameStart, endPast.Neg()), Ret: T},
-			{Name: "pending, start before now", Assume: A(same, st("pending"), startPast), Ret: F},
-			{Name: "pending, ok", Assume: A(same, st("pending"), startPast.Neg()), Ret: T},
-			{Name: "expired", Assume: A(same, st("expired")), Ret: F},
-			{Name: "unknown state", Assume: A(same, st("active").Neg(), st("pending").Neg(), st("expired").Neg()), NoReturn: true},
-		})
+		// the comparison of the matcher sets: slices.EqualFunc over the two lists, or the same thing spelled out
+		// (equal counts, then every pair compared with proto.Equal in a loop over all indexes)
+		sameA, sameO := A(same), []LitM(nil)
+		rows := []Row{{Name: "different matchers", Assume: A(same.Neg()), Ret: F}}
+		if !o.E.litKnown(fn, same) {
+			lenEq := L("(len(p0.MatcherSets) == len(p1.MatcherSets))", true)
+			pairEq := L("proto.Equal(p0.MatcherSets[i], p1.MatcherSets[i])", true)
+			if o.E.litKnown(fn, lenEq) && o.E.litKnown(fn, pairEq) {
+				sameA, sameO = nil, A(lenEq, pairEq)
+				rows = []Row{
+					{Name: "different number of matcher sets", Assume: A(lenEq.Neg()), Ret: F},
+				}
+				// a differing pair: from the edge that found it only `false` is returned (the table cannot
+				// say "some pair differs": the other iterations of the loop are unconstrained)
+				ecs := o.E.EdgesAsserting(fn, pairEq.Neg())
+				o.Check(len(ecs) > 0, "canUpdate|a matcher set differs|missing", "canUpdate no longer tests the pairs of matcher sets", fnFirst(fn))
+				for _, ec := range ecs {
+					r := (&Walk{Fn: fn}).FromEdgeCtx(ec)
+					for _, ret := range r.Returns() {
+						for _, v := range o.E.ValStrs(fn, o.E.RetVals(r, ret, 0)) {
+							o.Check(v == "false", "canUpdate|a matcher set differs|ret0", "a silence with a different matcher set may be updated in place (result "+v+")", ret)
+						}
+					}
+					o.SiteS("canUpdate: a matcher set differs ⇒ false")
+				}
+				for _, c := range o.E.Calls(fn, "proto.Equal") {
+					if l := o.E.LoopOf(c); o.Check(l != nil, "matcher-loop", "matcher sets must be compared pair by pair", c) {
+						o.Site(c, "matcher sets compared pair by pair")
+						o.Check(o.E.CoversAll(l, "p0.MatcherSets") || o.E.CoversAll(l, "p1.MatcherSets"), "matcher-loop-all", "every pair of matcher sets must be compared", c)
+						o.LoopExitsGuarded(l, "matcher-loop-exit", "the comparison may stop early only at a differing pair", pairEq.Neg())
+					}
+				}
+			}
+		}
+		with := func(rest ...LitM) []LitM { return append(append([]LitM{}, sameA...), rest...) }
+		rows = append(rows,
+			Row{Name: "active, start moved", Assume: with(st("active"), sameStart.Neg()), Opt: sameO, Ret: F},
+			Row{Name: "active, end before now", Assume: with(st("active"), sameStart, endPast), Opt: sameO, Ret: F},
+			Row{Name: "active, ok", Assume: with(st("active"), sameStart, endPast.Neg()), Opt: sameO, Ret: T},
+			Row{Name: "pending, start before now", Assume: with(st("pending"), startPast), Opt: sameO, Ret: F},
+			Row{Name: "pending, ok", Assume: with(st("pending"), startPast.Neg()), Opt: sameO, Ret: T},
+			Row{Name: "expired", Assume: with(st("expired")), Opt: sameO, Ret: F},
+			Row{Name: "unknown state", Assume: with(st("active").Neg(), st("pending").Neg(), st("expired").Neg()), Opt: sameO, NoReturn: true},
+		)
+		o.Table(fn, "canUpdate", rows)
 		// the matcher comparison is proto.Equal element-wise
 		// (the comparison function is whatever is handed to slices.EqualFunc)
-		ef := o.One(o.E.Calls(fn, "slices.EqualFunc"), "matcher-eqfunc", "matcher sets must be compared element-wise", fn)
-		var eq *ssa.Function
-		switch x := ef.Common().Args[2].(type) {
-		case *ssa.MakeClosure:
-			eq, _ = x.Fn.(*ssa.Function)
-		case *ssa.Function:
-			eq = x
+		if sameA != nil {
+			ef := o.One(o.E.Calls(fn, "slices.EqualFunc"), "matcher-eqfunc", "matcher sets must be compared element-wise", fn)
+			var eq *ssa.Function
+			switch x := ef.Common().Args[2].(type) {
+			case *ssa.MakeClosure:
+				eq, _ = x.Fn.(*ssa.Function)
+			case *ssa.Function:
+				eq = x
+			}
+			o.Require(eq != nil, "matcher-eqfunc-fn", "the matcher set comparison function cannot be resolved", ef)
+			protoEqualOrFieldwise(o, eq, "matcher-eq", 0)
 		}
-		o.Require(eq != nil, "matcher-eqfunc-fn", "the matcher set comparison function cannot be resolved", ef)
-		protoEqualOrFieldwise(o, eq, "matcher-eq", 0)
 		o.MinSites(7)
 	})
 
